@@ -105,6 +105,9 @@ Definition pd_concat_cols (a b : table) : option table :=
 (* ------------------------------------------------------------------ null tests and masked assignment *)
 (* df[c].isnull() *)
 Definition pd_isnull (c : string) (t : table) : option (list bool) := option_map (map is_null) (pd_col c t).
+(* df[cs].isnull().any(axis=1) : per row, whether one of the named cells is null; KeyError when a column is absent *)
+Definition pd_isnull_any (cs : list string) (t : table) : option (list bool) :=
+  if subset cs (cols t) then Some (map (fun r => existsb is_null (key_of (cols t) cs r)) (rows t)) else None.
 (* df.loc[mask, c] = df.loc[mask, c2] : in the rows where mask holds, column c takes the value of column c2 (same rows on both
    sides, so the label alignment is the identity); KeyError when a column is absent *)
 Definition pd_loc_set_from (mask : list bool) (c c2 : string) (t : table) : option table :=
